@@ -41,7 +41,7 @@ CLOCKS = ["260102030405", "2026010203040567", "2026-01-02T03:04:05.670000+00:00"
 
 T = lambda s: "t" + hexs(s)  # noqa: E731
 SVIDS = ["n1001", "n1002", "n1003", "n1004", "n1005", "n30", "n31", T("sv-t"), "n99", T("zz"), "n30.30", "n"]
-SVID_W = [3, 2, 2, 4, 4, 5, 3, 3, 2, 1, 1, 1]
+SVID_W = [3, 2, 6, 4, 4, 5, 3, 3, 2, 1, 1, 1]
 ECIDS = ["n1", "n2", "n30", "n31", T("ec-f"), "n32", "n33", "n34", "n35", "n36", "n99", T("zz"), "n30.30", "n"]
 ECID_W = [4, 5, 6, 4, 5, 5, 4, 3, 5, 5, 2, 1, 1, 1]
 ECID_TAME = [4, 5, 6, 4, 5, 5, 4, 3, 5, 5, 1, 0, 0, 0]
@@ -64,7 +64,14 @@ ACTIVE = [EC_DEFS]
 
 def defs():
     return ACTIVE[0]
-AL_DEFS = [("n7", 3, "hot"), ("n8", 5, "cold")]
+AL_DEFS = [("n8", 5, "cold"), ("n7", 3, "hot")]       # registered in DESCENDING id order: table order is not sorted order
+# the events enabled at the start of a history (SVID 1003 EventsEnabled = the enabled CEIDs in the order they were LINKED): numeric and
+# text CEIDs together, not ascending; CEID 21 is linked first but stays disabled
+EV_ORDERS = [["n50"], [T("ce-t"), "n50", "n3"], ["n50", "n20", "n3"], ["n20", T("ce-t")], ["n3", "n50", T("ce-t"), "n1"], [T("ce-t"), "n3"], []]
+
+
+def ev_order(salt: int):
+    return EV_ORDERS[salt % len(EV_ORDERS)]
 
 
 def cnum(x) -> str:
@@ -210,10 +217,12 @@ class Run:
         for i, code, text in AL_DEFS:
             h.alarms[pykey(i)] = secsgem.gem.Alarm(pykey(i), "al" + i, text, code, 60, 61)
         h.collection_events[50] = secsgem.gem.CollectionEvent(50, "ce50", [])
-        # one enabled event, so that EventsEnabled (SVID 1003) is not trivially empty -- through the message path
+        h.collection_events["ce-t"] = secsgem.gem.CollectionEvent("ce-t", "cet", [])
+        # the enabled events of this history, linked in the order of `ev_order(salt)` -- through the message path
+        evs = [pykey(c) for c in ev_order(salt)]
         for s, f, val in ((2, 33, {"DATAID": 1, "DATA": [{"RPTID": 1, "VID": [30]}]}),
-                          (2, 35, {"DATAID": 1, "DATA": [{"CEID": 50, "RPTID": [1]}]}),
-                          (2, 37, {"CEED": True, "CEID": [50]})):
+                          (2, 35, {"DATAID": 1, "DATA": [{"CEID": c, "RPTID": [1]} for c in [21] + evs]}),
+                          (2, 37, {"CEED": True, "CEID": evs or [21]}), (2, 37, {"CEED": False, "CEID": [21]})):
             ans = self.eq.request(s, f, val, False)
             if ans[1] != f + 1 or ans[2] != ("B", [0]):
                 raise RuntimeError(f"setup S{s}F{f} refused: {ans}")
@@ -322,7 +331,8 @@ class Run:
 class Ref:
     """Plain statement of the property over the harness's own record of the tables."""
 
-    def __init__(self):
+    def __init__(self, salt=0):
+        self.events = ev_order(salt)
         self.sv = {"n30": "n7", "n31": "f1/1", T("sv-t"): T("x")}
         self.defs = defs()
         self.ec = {d[0]: d[4] for d in self.defs}           # id -> Python number
@@ -335,7 +345,7 @@ class Ref:
         if i == "n1002":
             return "n3"
         if i == "n1003":
-            return "ln50"
+            return "l" + "+".join(self.events)
         if i == "n1004":
             return "l" + "+".join(k for k, f in self.al.items() if f[0])
         if i == "n1005":
@@ -473,7 +483,7 @@ def run_history(ops, salt, direct, gen=None, cfgb=False):
     """-> (answers 'out@ecs|ect|tf@alarms', first oracle violation (index, class, what) or None)"""
     ACTIVE[0] = EC_DEFS_B if cfgb else EC_DEFS
     run = Run(salt, direct)
-    ref = Ref()
+    ref = Ref(salt)
     try:
         answers, bad = [], None
         i = 0
@@ -521,8 +531,8 @@ def probe_variant() -> bool:
         run.close()
 
 
-def model_prefix(tc: bool):
-    env = f"X{int(tc)};K{hexs(CLOCKS[0])},{hexs(CLOCKS[1])},{hexs(CLOCKS[2])};C3;En50;T10;F1"
+def model_prefix(tc: bool, salt: int = 0):
+    env = f"X{int(tc)};K{hexs(CLOCKS[0])},{hexs(CLOCKS[1])},{hexs(CLOCKS[2])};C3;E{'+'.join(ev_order(salt))};T10;F1"
     svs = "S" + ";".join([f"n1001~{hexs('Clock')}~~k~n0", f"n1002~{hexs('ControlState')}~~s~n0", f"n1003~{hexs('EventsEnabled')}~~e~n0",
                           f"n1004~{hexs('AlarmsEnabled')}~~a~n0", f"n1005~{hexs('AlarmsSet')}~~z~n0",
                           f"n30~{hexs('sv30')}~{hexs('u')}~c~n7", f"n31~{hexs('sv31')}~{hexs('K')}~c~f1/1", f"{T('sv-t')}~{hexs('svt')}~~c~{T('x')}"])
@@ -591,6 +601,9 @@ def main():
                    # one-sided limits: the declared side is enforced, the other is open; all-or-none with a second constant
                    ["E15:n35=i1000000", "E15:n35=i-1", "E15:n30=i7,n35=i-1", "E15:n35=i0", "E15:n36=i1", "E15:n31=i2,n36=i1", "E15:n36=i-1000000",
                     "E15:n36=i0", "E13:n35,n36,n30,n31", "E29:n35,n36,n34", "E15:n35=fnan", "E15:n36=fnan", "E15:n35=o", "E13:"]]
+        for k_ in range(1, len(EV_ORDERS)):      # EventsEnabled / AlarmsEnabled / AlarmsSet in table (= link / registration) order
+            cases.append((["S3:n1003,n1004,n1005", "S3:", "A3:128:n7", "A3:128:n8", "AS:n7", "AS:n8", "S3:n1004,n1005,n1003", "S3:", "A7", "A5:"],
+                          k_, k_ % 2 == 0, None, False))
         for ops in corpus2:
             cases.append((ops, 2, False, None, False))
             cases.append((ops, 7, True, None, False))
@@ -633,7 +646,7 @@ def main():
                 res.violate(klass, (b2 or bad)[2], {"ops": small, "salt": salt, "direct": direct, "cfgb": cfgb})
         if cfgb:
             continue
-        lines.append(prefix + " " + " ".join(ops))
+        lines.append(model_prefix(tc, salt) + " " + " ".join(ops))
         impls.append(ans)
         metas.append((ops, salt, direct))
 
@@ -641,8 +654,8 @@ def main():
         res.driver_used = True
         outs = drv.run(lines)
 
-        def model_answers(sub):
-            o = drv.run([prefix + " " + " ".join(sub)])[0]
+        def model_answers(sub, salt_):
+            o = drv.run([model_prefix(tc, salt_) + " " + " ".join(sub)])[0]
             return (o[3:].split(" ") if len(o) > 3 else []) if o.startswith("ok") else None
         for (ops, salt, direct), impl, m in zip(metas, impls, outs):
             res.traces_validated += 1
@@ -650,14 +663,14 @@ def main():
             if got != impl:
                 def differs(sub, salt=salt, direct=direct):
                     ia, _ = run_history(sub, salt, direct)
-                    return model_answers(sub) != ia
+                    return model_answers(sub, salt) != ia
                 small = ops
                 if len(res.disagreements) < 3:
                     small = hlib.ddmin(ops, gemlib.bounded(differs, 120))
                 elif len(res.disagreements) >= 12:
                     continue
                 ia, _ = run_history(small, salt, direct)
-                ma = model_answers(small)
+                ma = model_answers(small, salt)
                 k = next((j for j in range(len(small)) if ma is None or j >= len(ma) or ma[j] != ia[j]), 0)
                 res.disagree("gemtab history: model vs GemEquipmentHandler", {"ops": small, "salt": salt, "direct": direct, "first_diff_at": k},
                              None if ma is None else ma[k] if k < len(ma) else None, ia[k] if k < len(ia) else None)
